@@ -362,8 +362,9 @@ def run_property(ck: Check, oracle, props_extra=()):
     ck.coverage.update({
         "evaluations": len(results),
         "distinct_nontrivial": sum(1 for v in distinct.values() if v),
-        "rule": "seeded signal programs over 1-4 owner instances of 6 classes (plain, subclass inheriting signals, "
-                "value-equal frozen dataclass, slotted, falsy container, copy.copy() of an instance with bound signals) with 2-3 Signal attributes of different event classes: "
+        "rule": "seeded signal programs over 1-4 owner instances of 7 classes (plain, subclass inheriting signals, "
+                "value-equal frozen dataclass, slotted, falsy container, copy.copy() of an instance with bound signals, "
+                "base+subclass with equally spelt private signals) with 2-3 Signal attributes of different event classes: "
                 "attribute access, stream_events consumers (1-3 signals, filter from a pool of 4, queue size 0-3) and "
                 "wait_event waiters run as real tasks under a lock-step director, bursts of 1-70 dispatches without a "
                 "checkpoint (8% of events of a wrong class), consumers asking for the next event, leaving (also while "
